@@ -428,6 +428,49 @@ fn plan(_tier: Tier) -> Vec<Chunk> {
     v
 }
 
+/// Memory far from the start: a word stored and loaded again at every word-aligned boundary offset a block's gas can pay
+/// for (up to 123 170 words), alone, after a store at offset 0, and on one side of a branch; MSTORE8 too.
+fn far_memory_programs() -> Vec<Vec<u8>> {
+    let pb = |x: u64| crate::asm::push_bytes(U::from_u64(x));
+    let mut v = Vec::new();
+    let offsets: [u64; 16] = [0x60, 0x80, 0x1000, 0xffe0, 0x1_0000, 0x1_e100, 0x1_e120, 0x1_e140, 0x1_e160, 0x2_0000, 0x10_0000, 0x20_0000, 0x3c_23a0, 0x3c_23c0, 0x3c_23e0, 0x3c_2400];
+    for off in offsets {
+        for store in [op::MSTORE, 0x53u8] {
+            // PUSH 42 PUSH off MSTORE PUSH off MLOAD PUSH 1 SSTORE PUSH 7 STOP
+            let mut body = pb(42);
+            body.extend(pb(off));
+            body.push(store);
+            body.extend(pb(off));
+            body.push(op::MLOAD);
+            body.extend(pb(1));
+            body.push(op::SSTORE);
+            body.extend(pb(7));
+            let mut alone = body.clone();
+            alone.push(op::STOP);
+            v.push(alone);
+            // after a store at offset 0
+            let mut after = pb(9);
+            after.extend(pb(0));
+            after.push(op::MSTORE);
+            after.extend(body.iter());
+            after.push(op::STOP);
+            v.push(after);
+            // on the fall-through side of a branch: CALLVALUE PUSH2 dest JUMPI body STOP JUMPDEST PUSH 5 PUSH 2 SSTORE STOP
+            let dest = 1 + 3 + 1 + body.len() + 1;
+            let mut br = vec![op::CALLVALUE, 0x61, (dest >> 8) as u8, dest as u8, op::JUMPI];
+            br.extend(body.iter());
+            br.push(op::STOP);
+            br.push(0x5b);
+            br.extend(pb(5));
+            br.extend(pb(2));
+            br.push(op::SSTORE);
+            br.push(op::STOP);
+            v.push(br);
+        }
+    }
+    v
+}
+
 fn run_code(ctx: &mut Ctx, family: &str, code: &[u8]) -> bool {
     ctx.case(|| json!({"bytes": hex(code)}));
     ctx.count("programs", 1);
@@ -565,6 +608,9 @@ impl Check for C07 {
                         ctx.count("outside_domain", 1);
                     }
                 }
+                for code in far_memory_programs() {
+                    run_code(ctx, "far_memory", &code);
+                }
             }
             Chunk::Branch(c) => {
                 let alpha = branch_alphabet();
@@ -590,7 +636,7 @@ impl Check for C07 {
                  DUPn/SWAPn for n = 1..16 over stacks of depth n..17; every PUSH width 0..32 x 4 immediates; all straight-line \
                  sequences <= {} over 8 constants + 25 ALU opcodes + POP/DUP1/SWAP1/PC/CODESIZE (prefix-pruned on stack safety); all \
                  sequences <= {} over aligned MSTORE/MLOAD and SSTORE/SLOAD tokens with literal keys and with a computed key (0 + 1) for slot 1; all branching programs <= {} tokens \
-                 over constant-condition JUMPI to 3 labels, stores, pushes, pops; 36 programs of boundary lengths (255..257, 24 575..24 577, 30 000, 49 152, 65 535..65 537, 70 000 bytes) that read CODESIZE and PC at either end and on both sides of a branch. The reference EVM enumerates all forced-branch \
+                 over constant-condition JUMPI to 3 labels, stores, pushes, pops; 96 programs that store (MSTORE / MSTORE8) and load a word at 16 word-aligned offsets up to the 123 170 words a block's gas can pay for (alone, after a store at offset 0, on one side of a branch); 36 programs of boundary lengths (255..257, 24 575..24 577, 30 000, 49 152, 65 535..65 537, 70 000 bytes) that read CODESIZE and PC at either end and on both sides of a branch. The reference EVM enumerates all forced-branch \
                  paths; the tool's stored final states are evaluated by an independent evaluator and the multiset of (stack, memory \
                  words, per-key ordered write list) must equal the multiset of reference paths. states = distinct validated \
                  programs; traces validated = reference paths matched against implementation states",
